@@ -3,6 +3,8 @@
 Guards and contract conditions log the *actual* values of time, after(d), idle(d); a time-stamp model fed by the
 observed entries/transitions recomputes every predicate exactly (dyadic times).  The clock is moved between steps
 and *inside* steps (an action calls a harness callable that advances the clock)."""
+from fractions import Fraction
+
 from ..common import import_sismic
 from ..gen import TIMED_D, Tree, chart_digest, gen_chart
 from ..lockstep import Runner, gen_script
@@ -26,7 +28,7 @@ RULE = ('One case = generated chart whose guards and contract conditions are pro
 ASSUMPTIONS = ['idle() inside the post-conditions/invariants of the transition being fired is accepted with either reading '
                '(stamp before or after that firing) - the statement does not fix it',
                'dyadic clock values make float arithmetic exact (W10)']
-REQUIRED_COUNTERS = ['idle_calls_checked', 'cases_with_ticking_clock', 'cases_with_epoch_sized_clock', 'selection_under_plain_time_guards_cases', 'steps_checked', 'predicates_checked', 'predicates_at_exact_boundary', 'steps_with_clock_moved_inside',
+REQUIRED_COUNTERS = ['cases_with_exact_rational_clock', 'idle_calls_checked', 'cases_with_ticking_clock', 'cases_with_epoch_sized_clock', 'selection_under_plain_time_guards_cases', 'steps_checked', 'predicates_checked', 'predicates_at_exact_boundary', 'steps_with_clock_moved_inside',
                      'time_reads_checked', 'idle_after_internal_transition', 'guard_predicates', 'contract_predicates',
                      'multi_transition_steps']
 TIERS = dict(quick=dict(steps=40, gen=dict(max_states=10, max_depth=4, max_trans=14)),
@@ -37,22 +39,26 @@ def plan(tier):
     return dict(cases=8000 if tier == "quick" else 80000, shards=16, timeout=900 if tier == 'quick' else 3600)
 
 
+FRAC_D = (Fraction(0), Fraction(1, 10), Fraction(1, 10), Fraction(1, 5), Fraction(3, 10), Fraction(1, 2), Fraction(1), Fraction(7, 10))
+
+
 class TCoder(build.Coder):
-    def __init__(self, rnd, ch):
+    def __init__(self, rnd, ch, frac=False):
         self.d = {}
         self.clk = {}
         self.gate = {}
+        self.D = FRAC_D if frac else TIMED_D        # exact rationals when the clock shows exact rationals
         for t in ch['transitions']:
-            self.d['g:' + t['id']] = (rnd.choice(TIMED_D) if rnd.random() < 0.8 else None,
-                                      rnd.choice(TIMED_D) if rnd.random() < 0.7 else None)
-            self.clk[t['id']] = rnd.choice((0.125, 0.5, 1, 2)) if rnd.random() < 0.25 else None
+            self.d['g:' + t['id']] = (rnd.choice(self.D) if rnd.random() < 0.8 else None,
+                                      rnd.choice(self.D) if rnd.random() < 0.7 else None)
+            self.clk[t['id']] = rnd.choice((Fraction(1, 10), Fraction(1, 5)) if frac else (0.125, 0.5, 1, 2)) if rnd.random() < 0.25 else None
             self.gate[t['id']] = rnd.random() < 0.5
         self.rnd = rnd
 
     def dd(self, key):
         if key not in self.d:
-            self.d[key] = (self.rnd.choice(TIMED_D) if self.rnd.random() < 0.8 else None,
-                           self.rnd.choice(TIMED_D) if self.rnd.random() < 0.7 else None)
+            self.d[key] = (self.rnd.choice(self.D) if self.rnd.random() < 0.8 else None,
+                           self.rnd.choice(self.D) if self.rnd.random() < 0.7 else None)
         return self.d[key]
 
     def guard(self, ch, t):
@@ -97,7 +103,8 @@ def run_case(acc, rnd, tier, case):
                    p_orth=0.4 if mode == 'orth' else 0.3, **T['gen'])
     tr = Tree(ch)
     tdict = {t['id']: t for t in ch['transitions']}
-    coder = TCoder(rnd, ch)
+    frac = rnd.random() < 0.12      # a clock that shows exact rationals (a legal Clock): times are what the clock shows
+    coder = TCoder(rnd, ch, frac=frac)
     sc, tmap = build.build_api(ch, coder=coder)
     script = gen_script(rnd, ch['events'], T['steps'], p_clock=0.6, p_queue=0.6)
     pr = Probes(val=make_val(rnd.random(), rnd.choice((0.6, 0.9, 1.0))))
@@ -119,7 +126,7 @@ def run_case(acc, rnd, tier, case):
             it.clock.time += dt
         clock_moves.append(dt)
         log.append(('C', dt))
-    ticking = rnd.random() < 0.25
+    ticking = rnd.random() < 0.25 and not frac
     clock = None
     if ticking:
         from sismic.clock import Clock
@@ -140,13 +147,18 @@ def run_case(acc, rnd, tier, case):
                 self._now = v
         clock = TickingClock()
         acc.count('cases_with_ticking_clock')
+    elif frac:
+        from sismic.clock import SimulatedClock
+        clock = SimulatedClock()
+        clock.time = Fraction(0)
+        acc.count('cases_with_exact_rational_clock')
     elif rnd.random() < 0.2:
         # epoch-sized times (what UtcClock shows): the predicates are about *elapsed* time, whatever the magnitude of the clock
         from sismic.clock import SimulatedClock
         clock = SimulatedClock()
         clock.time = rnd.choice((1.7e9, 2.0 ** 31, 1.0e6 + 0.5))
         acc.count('cases_with_epoch_sized_clock')
-    it = Interpreter(sc, initial_context=pr.context(T=Tprobe, CLK=CLK), clock=clock)
+    it = Interpreter(sc, initial_context=pr.context(T=Tprobe, CLK=CLK, Fraction=Fraction), clock=clock)
     it.attach(pr.listener())
     it.attach(lambda m: log.append(('IT', m.name, it.time)))       # what Interpreter.time shows while a meta-event is delivered
     r = Runner(it, tmap, log=log)
@@ -159,6 +171,8 @@ def run_case(acc, rnd, tier, case):
         if op[0] != 'step':
             if ticking and op[0] == 'clock':
                 it.clock.time = it.clock._now + op[1]
+            elif frac and op[0] == 'clock':
+                it.clock.time += Fraction(str(op[1])) * Fraction(2, 5)
             else:
                 r.apply(op)
             acc.count('time_reads_checked')
